@@ -63,6 +63,11 @@ class Gen:
             if m < 0.5:
                 return [r.choice([0, 1, 6, 17, 47, 58, 143, 144, 145, 255])]
             return [r.randrange(256)]
+        if kind == "Ip6Addr" and r.random() < 0.3:
+            # addresses of one interface under different prefixes (global / unique-local / link-local): same low 64 bits
+            iid = r.choice([[0x0A, 0, 0x27, 0xFF, 0xFE, 0, 0, 1], [0] * 7 + [1], [0x02, 0x11, 0x22, 0xFF, 0xFE, 0x33, 0x44, 0x55]])
+            return r.choice([[0x20, 0x01, 0x0D, 0xB8, 0, 0, 0, 2], [0xFE, 0x80, 0, 0, 0, 0, 0, 0], [0xFD, 0, 0, 0, 0, 0, 0, 7],
+                             [0x20, 0x01, 0x0D, 0xB8, 0, 0, 0, 3]]) + iid
         if kind == "Ip6Addr" and r.random() < 0.25:
             # special-purpose addresses: IPv4-mapped, IPv4-compatible, loopback, unspecified, link-local
             return r.choice([[0] * 10 + [255, 255] + [r.randrange(256) for _ in range(4)],
